@@ -203,6 +203,7 @@ type c01gen struct {
 	groups   []*fgroup
 	modAugs  []faug
 	features bool
+	guards   int
 }
 
 func (g *c01gen) name(p string) string { g.seq++; return fmt.Sprintf("%s%d", p, g.seq) }
@@ -628,7 +629,13 @@ func (t c01text) nodes(ns []*fnode, indent string, from string) string {
 	for _, n := range ns {
 		switch n.kind {
 		case "leaf":
-			fmt.Fprintf(&b, "%sleaf %s { type string;%s }\n", indent, n.name, n.p.yang("leaf"))
+			guard := ""
+			if from == "module" && t.g.r.Chance(8) {
+				// every feature is enabled in these loads: a guard by a feature of the module changes nothing
+				guard = " if-feature fz;"
+				t.g.guards++
+			}
+			fmt.Fprintf(&b, "%sleaf %s {%s type string;%s }\n", indent, n.name, guard, n.p.yang("leaf"))
 		case "cont":
 			switch c01special(n.name) {
 			case "action":
@@ -696,7 +703,16 @@ func c01inline(ts []*tnode, indent string) string {
 
 // ---- the compiled tree through the public accessors
 
+// c01depth guards the dump against a compiled tree that contains itself (a stack overflow cannot be recovered,
+// a panic can: safeDo turns it into a refused load)
+var c01depth int
+
 func c01dump(defs []meta.Definition) string {
+	c01depth++
+	defer func() { c01depth-- }()
+	if c01depth > 200 {
+		panic("the compiled tree is more than 200 levels deep: it contains itself")
+	}
 	var b strings.Builder
 	b.WriteString("{")
 	for _, d := range defs {
@@ -869,6 +885,20 @@ func C01(c *core.Ctx) {
 			body = append(body, extra...)
 			c.Count("scenario", "reused grouping that augments what it uses")
 		}
+		// a grouping of this module that has the name of an imported grouping and wraps it: two groupings, one name
+		if r.Chance(30) {
+			inner := &fgroup{name: g.name("g"), where: "imp"}
+			inner.yname = inner.name
+			inner.body = []*fnode{{kind: "leaf", name: g.name("f"), p: g.props("leaf", true, false)},
+				{kind: "cont", name: g.name("c"), p: g.props("cont", true, false), kids: []*fnode{{kind: "leaf", name: g.name("f"), p: g.props("leaf", true, false)}}}}
+			wrap := &fgroup{name: g.name("g"), yname: inner.yname, where: "module"}
+			wrap.body = []*fnode{{kind: "cont", name: g.name("c"), kids: []*fnode{{kind: "uses", g: inner}}}, {kind: "leaf", name: g.name("f"), p: g.props("leaf", true, false)}}
+			inner.uses++
+			wrap.uses += 2
+			g.groups = append(g.groups, inner, wrap)
+			body = append(body, &fnode{kind: "cont", name: g.name("c"), kids: []*fnode{{kind: "uses", g: wrap}}}, &fnode{kind: "cont", name: g.name("c"), kids: []*fnode{{kind: "uses", g: wrap}}})
+			c.Count("scenario", "grouping named like the imported grouping it wraps")
+		}
 		// a local grouping that shadows a module-level one: the use next to it gets the local one
 		for _, mg := range g.groups {
 			if mg.where == "module" && r.Chance(30) {
@@ -939,7 +969,7 @@ func C01(c *core.Ctx) {
 			}
 		}
 		c.Count("submodule_nodes", fmt.Sprint(c01min(len(subBody), 3)))
-		mainY := "module m { namespace \"urn:m\"; prefix m;\n  import lib { prefix lib; }\n  include m-sub;\n  revision 2020-01-01;\n" +
+		mainY := "module m { namespace \"urn:m\"; prefix m;\n  import lib { prefix lib; }\n  include m-sub;\n  revision 2020-01-01;\n  feature fz;\n" +
 			strings.Join(modG[:split], "") + tx.nodes(mainBody, "  ", "module") + strings.Join(modG[split:], "") + augT.String() + "}\n"
 		subY := "submodule m-sub { belongs-to m { prefix m; }\n  import lib { prefix lib; }\n" + strings.Join(subG, "") + tx.nodes(subBody, "  ", "sub") + "}\n"
 		libY := "module lib { namespace \"urn:lib\"; prefix lib;\n  revision 2020-01-01;\n" + strings.Join(impG, "") + "}\n"
@@ -953,6 +983,7 @@ func C01(c *core.Ctx) {
 				if err != nil {
 					return err
 				}
+				c01depth = 0
 				out = c01dump(m.DataDefinitions())
 				return nil
 			})
@@ -963,6 +994,7 @@ func C01(c *core.Ctx) {
 		}
 		factored := load(mainY)
 		inline := load(inlineY)
+		c.Count("leaves_guarded_by_an_enabled_feature", fmt.Sprint(c01min(g.guards, 4)))
 		c.Count("actions_in_text", fmt.Sprint(c01min(strings.Count(mainY+subY+libY, " action "), 4)))
 		c.Count("notifications_in_text", fmt.Sprint(c01min(strings.Count(mainY+subY+libY, " notification "), 4)))
 		c.Evaluations += 2
